@@ -73,7 +73,7 @@ pub fn text(lane: u64, seq: u64) -> String {
     let h = mix(lane ^ seq.rotate_left(17));
     (0..(h % 40)).map(|i| char::from_u32(0x61 + ((h >> (i % 32)) % 0x300) as u32).unwrap_or('x')).collect()
 }
-fn digest(b: &[u8]) -> u64 {
+pub fn digest(b: &[u8]) -> u64 {
     let mut h = 0xcbf29ce484222325u64;
     for x in b {
         h = (h ^ *x as u64).wrapping_mul(0x100000001b3);
@@ -256,10 +256,10 @@ async fn spawn_node(name: &str, tag: &str) -> Node {
     Node { server: node, handle: h, events: ev }
 }
 
-fn proxies_of(session: &ActorRef<NodeSessionMessage>) -> Vec<ActorCell> {
+pub fn proxies_of(session: &ActorRef<NodeSessionMessage>) -> Vec<ActorCell> {
     session.get_cell().get_children().into_iter().filter(|c| !c.get_id().is_local()).collect()
 }
-fn find_proxy(session: &ActorRef<NodeSessionMessage>, pid: u64) -> Option<ActorCell> {
+pub fn find_proxy(session: &ActorRef<NodeSessionMessage>, pid: u64) -> Option<ActorCell> {
     proxies_of(session).into_iter().find(|c| c.get_id().pid() == pid && c.get_status() == ActorStatus::Running)
 }
 
